@@ -22,6 +22,33 @@ def check(ctx):
   r1(ctx)
   r2(ctx)
   r3(ctx)
+  truthiness(ctx)
+
+
+def truthiness(ctx):
+  """Sinks are tested for existence by truthiness all over the stack (`if not sink:` in the shared provider, `if self.next_sink:` in Open/Close):
+  a sink class must not acquire a length or a truth value of its own."""
+  prog = ctx.prog
+  try:
+    base = prog.cls(SK, 'MessageSink')
+  except Exception:
+    base = None
+  why = ('the shared provider returns the cached sink `if sink` and a sink forwards Open/Close `if self.next_sink`: a sink that is falsy while nobody holds it looks like a cache miss '
+         '(a second connection for the same key) and swallows its first Open')
+  bad = []
+  n = 0
+  for c in prog.all_classes:
+    if base is not None and base not in prog.mro(c):
+      continue
+    if base is None and not c.name.endswith('Sink'):
+      continue
+    n += 1
+    for m in ('__len__', '__bool__', '__nonzero__'):
+      if m in c.methods:
+        bad.append('%s.%s' % (c.name, m))
+  ctx.ob('C16.R3', prog.cls(SK, 'RefCountedSink'), 'sink objects are always truthy (no __len__ / __bool__ on a sink class)', not bad,
+         'sink classes define %s' % bad, why)
+  ctx.floor('C16.R3', 'sink classes', n, 10)
 
 
 def r1(ctx):
